@@ -181,6 +181,9 @@ WireFtpWarc == {
   <<"fw_ok", "none", "none">>, <<"fw_connect_refused", "f_connect", "OSConnRefused">>,
   <<"fw_connect_timeout", "f_connect", "TimeoutError">>, <<"fw_retr_550", "f_reply_code", "FTPServerError">>,
   <<"fw_data_reset", "f_data_read", "OSError">>, <<"fw_greeting_421", "f_reply_code", "FTPServerError">> }
+WireFtpOptions == {
+  <<"fo_mlsd_symlink", "none", "none">>, <<"fo_timestamping_second_run", "none", "none">>,
+  <<"fo_new_directory_file_url", "none", "none">>, <<"fo_no_remove_listing", "none", "none">>, <<"fo_no_glob", "none", "none">>}
 WireHttpWarc == {
   <<"hw_ok", "none", "none">>, <<"hw_connect_refused", "h_connect", "OSConnRefused">>,
   <<"hw_reset_in_header", "h_hdr_readline", "OSError">>, <<"hw_garbage", "h_status_parse", "ProtocolError">> }
@@ -199,6 +202,7 @@ WireCases == WireOf(WirePage, "page", Segs) \cup WireOf(WireRobots, "robots", Se
              \cup WireOf(WireFtpPerm, "ftpperm", {"whole"}) \cup WireOf(WireFtpSymlink, "ftpsym", {"whole"})
              \cup WireOf(WireFtpContinue, "ftpcont", {"whole"}) \cup WireOf(WireHttpContinue, "httpcont", {"whole"})
              \cup WireOf(WireFtpWarc, "ftpwarc", {"whole"}) \cup WireOf(WireHttpWarc, "httpwarc", {"whole"})
+             \cup WireOf(WireFtpOptions, "ftpopt", {"whole"})
 
 WireWellFormed == \A c \in WireCases : <<c.site, c.kind>> = None \/ (c.site \in Sites /\ c.kind \in Kinds)
 
